@@ -73,7 +73,7 @@ META = {
     "design_ref": "DESIGN.md section 4, C04",
     "rule": "case = (statement kind, feature set, bind count); non-trivial = >=3 binds and at least one of {expanding, cte, subquery, repeated_bind, escaped_name, literal_execute, executemany, returning}; distinct by structure seed",
     "shards": {"quick": 8, "thorough": 16},
-    "soft_s": {"quick": 45, "thorough": 800},
+    "soft_s": {"quick": 60, "thorough": 800},
     "exhaustive": {"quick": False, "thorough": False},
     "require": ["placeholders_resolved", "token_seq_compared", "rows_compared", "styles_executed", "fake_statements_judged",
                 "cache_hits_judged", "imv_batches_judged", "executemany_sets_judged", "probe_rows_absolute"],
@@ -469,7 +469,7 @@ def run(ctx):
     rig = Rig(ctx)
     g = rig.g
     rng = ctx.rng
-    ncases = ctx.pick({"quick": 60, "thorough": 500})
+    ncases = ctx.pick({"quick": 36, "thorough": 500})
     try:
         for k in range(ncases):
             if not ctx.budget_ok():
